@@ -320,8 +320,8 @@ def cases(run):
     global EXHAUSTIVE_NOTE
     thorough = run.tier == "thorough"
     base = 100000 + 1000 * run.seed         # obj seeds are disjoint between VERIF_SEEDs; 0.. are the fixed ones
-    fixed = range(0, 6 if not thorough else 25)
-    rnd = range(base, base + (6 if not thorough else 40))
+    fixed = range(0, 8 if not thorough else 40)
+    rnd = range(base, base + (10 if not thorough else 120))
     EXHAUSTIVE_NOTE = ("tokens: every ordered pair of 12 atoms as a set / list / dict values; tokeq: every ordered pair "
                        "of 6 keys; qexport: every ordered triple of 9 values; vcollide: EVERY pair of variants "
                        f"0 <= s < e <= {400 if thorough else 250} whose coordinates concatenate to the same digits; obj: "
@@ -333,14 +333,14 @@ def cases(run):
         yield f"obj ac {pk} 900000 plain"
         yield f"obj ac {pk} 900001 plain"
     run.exhaustive = True
-    yield from _tokens_cases(run, 4000 if thorough else 500)
-    yield from _qexport_cases(run, 2000 if thorough else 300)
-    yield from _dict_cases(run, 400 if thorough else 60)
+    yield from _tokens_cases(run, 20000 if thorough else 1500)
+    yield from _qexport_cases(run, 5000 if thorough else 500)
+    yield from _dict_cases(run, 1500 if thorough else 120)
     yield from _obj_cases(run, rnd)
     hashseeds = ",".join(str(i) for i in (range(32) if thorough else range(3)))
     for j, profile in enumerate(G8.PROFILES):
         run.count("sweep")
-        yield f"sweep {base + 50 * j} {12 if thorough else 5} {profile} {hashseeds}"
+        yield f"sweep {base + 50 * j} {25 if thorough else 5} {profile} {hashseeds}"
     for kind in ("tx", "cds", "feat", "var", "gene", "fc", "vc"):
         for pk in G8.PARENTS:
             run.count("pickleleaf")
